@@ -14,15 +14,3 @@ Proof. intros Ht Hp. unfold rel_stm. expose_stm. interval with (i_taylor t, i_bi
 Lemma S47 t p : 550 <= t <= 590 -> 1000000 <= p <= 10000000 -> rel_stm t p <= 1 / 100.
 Proof. intros Ht Hp. unfold rel_stm. expose_stm. interval with (i_taylor t, i_bisect p, i_depth 14, i_degree 5). Qed.
 
-Lemma S4 t p : 150 <= t <= 200 -> 12500 <= p <= 25000 -> rel_stm t p <= 1 / 100.
-Proof. intros Ht Hp. unfold rel_stm. expose_stm. interval with (i_bisect t, i_bisect p, i_depth 14). Qed.
-
-Lemma S23 t p : 350 <= t <= 400 -> 12500 <= p <= 25000 -> rel_stm t p <= 1 / 100.
-Proof. intros Ht Hp. unfold rel_stm. expose_stm. interval with (i_bisect t, i_bisect p, i_depth 14). Qed.
-
-Lemma S43 t p : 550 <= t <= 590 -> 12500 <= p <= 25000 -> rel_stm t p <= 1 / 100.
-Proof. intros Ht Hp. unfold rel_stm. expose_stm. interval with (i_bisect t, i_bisect p, i_depth 14). Qed.
-
-Lemma S61 t p : 700 <= t <= 750 -> 50000 <= p <= 100000 -> rel_stm t p <= 1 / 100.
-Proof. intros Ht Hp. unfold rel_stm. expose_stm. interval with (i_bisect t, i_bisect p, i_depth 14). Qed.
-
